@@ -199,12 +199,13 @@ impl Suite for Sched {
         } else {
             &[("fresh", true), ("restart", true)]
         };
+        // absent-column queries (a column some partitions lack, a column no partition has) are part of the ordinary
+        // classes since the repairs 3a6284a / 7a0a728; evictions (finding F14b) stay in dedicated classes
         let f_inject: &[(&str, &[&str])] = &[
-            ("plain", &["all", "count", "sorted"]),
-            ("plain+ingest", &["all", "count", "sorted", "ingest"]),
-            ("lackcol", &["lack"]),
-            ("nosuchcol", &["nosuch"]),
+            ("queries", &["all", "count", "sorted", "lack", "nosuch"]),
+            ("queries+ingest", &["all", "count", "lack", "nosuch", "ingest"]),
             ("evict", &["evict", "all", "sorted"]),
+            ("evict", &["evict", "cols3"]),
         ];
         let thorough = tier == "thorough";
         for (variant, compact) in variants {
@@ -220,7 +221,7 @@ impl Suite for Sched {
                     continue;
                 }
                 for (iname, inj) in f_inject {
-                    if !full && (*iname == "plain" || *iname == "nosuchcol" || *iname == "evict") {
+                    if !full && *iname == "evict" {
                         continue;
                     }
                     cases.push(Case {
@@ -230,11 +231,12 @@ impl Suite for Sched {
                 }
             }
             let q_runs: &[(&str, &str, &[&str])] = &[
-                ("plain", "all", &["flush"]),
-                ("plain", "all", &["flush", "ingest"]),
-                ("plain", "sorted", &["ingest"]),
-                ("lackcol", "lack", &["flush"]),
-                ("nosuchcol", "nosuch", &["flush"]),
+                ("query", "all", &["flush"]),
+                ("query", "all", &["flush", "ingest"]),
+                ("query", "sorted", &["ingest"]),
+                ("query", "lack", &["flush"]),
+                ("query", "nosuch", &["flush"]),
+                ("query", "nosuch", &["flush", "ingest"]),
             ];
             for (label, occ, only_restart) in Q_LABELS {
                 if *only_restart && *variant != "restart" {
@@ -242,15 +244,14 @@ impl Suite for Sched {
                 }
                 for (cname, main, inj) in q_runs {
                     cases.push(Case {
-                        class: format!("q/{}#{}/{}/{}/{}", label, occ, cname, inj.join("+"), vname),
+                        class: format!("q/{}#{}/{}-{}/{}/{}", label, occ, cname, main, inj.join("+"), vname),
                         input: sched_case(variant, *compact, "q", label, true, *occ, main, inj),
                     });
                 }
             }
             let i_runs: &[(&str, &[&str])] = &[
-                ("plain", &["all", "count", "sorted"]),
-                ("plain+flush", &["all", "flush"]),
-                ("lackcol", &["lack"]),
+                ("queries", &["all", "count", "sorted", "lack", "nosuch"]),
+                ("queries+flush", &["all", "nosuch", "flush"]),
             ];
             if full {
                 for (label, table) in I_LABELS {
@@ -285,9 +286,8 @@ impl Suite for Stress {
         for k in 0..n {
             let s = rng.next() % 1_000_000;
             let (class, lack) = match k % 8 {
-                3 => ("stress-lackcol", 1),
                 6 => ("stress/evict", 2),
-                _ => ("stress-plain", 0),
+                _ => ("stress/queries", 1),
             };
             let variant = if k % 2 == 0 { "fresh" } else { "restart" };
             let combine = [1u64, 2, 4][(rng.next() % 3) as usize];
